@@ -121,16 +121,19 @@ def PrimeSieve.nth : Nat → PrimeSieve → Option (List Nat × PrimeSieve)
 def offsetsAt (smalls : List Nat) (b : Nat) : List Nat :=
   smalls.map (fun p => (p - 65536 * b % p) % p)
 
+/-- block `b` of the sieve whose fresh state is `ps`, computed from `offsetsAt` -/
+def blockOf (ps : PrimeSieve) (b : Nat) : Option (List Nat) :=
+  if b = 0 then some ps.smalls
+  else if b ≥ 65536 then some []
+  else
+    match sieveStep (Array.replicate 65536 false) ps.smalls (offsetsAt ps.smalls b) with
+    | none => none
+    | some (s, _) => some (collect s (b * 65536))
+
 /-- block `b` of a fresh `PrimeSieve`, computed from `offsetsAt` -/
 def blockAt (b : Nat) : Option (List Nat) :=
   match PrimeSieve.new with
   | none => none
-  | some ps =>
-    if b = 0 then some ps.smalls
-    else if b ≥ 65536 then some []
-    else
-      match sieveStep (Array.replicate 65536 false) ps.smalls (offsetsAt ps.smalls b) with
-      | none => none
-      | some (s, _) => some (collect s (b * 65536))
+  | some ps => blockOf ps b
 
 end Ymq.Primes
